@@ -46,7 +46,7 @@ type awfact struct {
 
 func genAstWriteFacts() {
 	p := loadPkg(filepath.Join(repoRoot(), "lib", "query"), queryPkg)
-	var shared, local []awfact
+	var shared, local, cellw []awfact
 	for _, f := range p.Files {
 		for _, decl := range f.Decls {
 			fd, ok := decl.(*ast.FuncDecl)
@@ -347,14 +347,33 @@ func genAstWriteFacts() {
 					shared = append(shared, fact)
 				}
 			}
+			// writes INTO an existing cell: `…[i] = v` where the indexed thing is a query.Cell that this function did
+			// not make itself.  Cells are shared by every shallow copy of a table (View.Copy, Record.Copy, cursors,
+			// temporary views, the restore point of a transaction): a new value must come as a new cell (NewCell).
+			checkCell := func(lhs ast.Expr) {
+				ix, ok := lhs.(*ast.IndexExpr)
+				if !ok {
+					return
+				}
+				tv, ok := p.Info.Types[ix.X]
+				if !ok || namedTypeName(tv.Type) != queryPkg+".Cell" {
+					return
+				}
+				if id, ok := ix.X.(*ast.Ident); ok && freshLocal(p.Info.Uses[id]) {
+					return
+				}
+				cellw = append(cellw, awfact{file: p.base(lhs.Pos()), fn: funcLabel(fd), lhs: exprText(lhs), line: p.line(lhs.Pos()), how: "element of an existing cell assigned"})
+			}
 			ast.Inspect(fd.Body, func(n ast.Node) bool {
 				switch x := n.(type) {
 				case *ast.AssignStmt:
 					for _, l := range x.Lhs {
 						check(l)
+						checkCell(l)
 					}
 				case *ast.IncDecStmt:
 					check(x.X)
+					checkCell(x.X)
 				case *ast.CallExpr:
 					// in-place bulk writes: copy(dst, …) and sort.*(x) on a slice of syntax nodes
 					argIsTree := func(e ast.Expr) bool {
@@ -438,6 +457,141 @@ func genAstWriteFacts() {
 	o.WriteString("import Csvq.Model.Pool\n\nnamespace Csvq.Gen\nopen Csvq.Pool\n\n")
 	emit(&o, "astWriteFacts", shared)
 	emit(&o, "astLocalWrites", local)
+	o.WriteString("-- cellWriteFacts: assignments into an element of an existing query.Cell (cells are shared between a cached\n")
+	o.WriteString("-- table and its shallow copies).  doubleCloseFacts: a scope block / node handed back to its pool by a\n")
+	o.WriteString("-- deferred Close in a function AND in a callee that receives the same scope.\n")
+	emit(&o, "cellWriteFacts", cellw)
+	emit(&o, "doubleCloseFacts", doubleClose(p))
 	o.WriteString("end Csvq.Gen\n")
 	fmt.Print(o.String())
+}
+
+func namedTypeName(t types.Type) string {
+	if n, ok := t.(*types.Named); ok && n.Obj().Pkg() != nil {
+		return n.Obj().Pkg().Path() + "." + n.Obj().Name()
+	}
+	return ""
+}
+
+var closeMethods = map[string]bool{"CloseCurrentBlock": true, "CloseCurrentNode": true}
+
+// doubleClose: functions that close (hand back to the pool) the current block / node of a scope variable and
+// also pass that same scope to a callee that closes it (directly, deferred or not).
+func doubleClose(p *Pkg) []awfact {
+	type closer struct {
+		recv   bool
+		params map[int]bool
+	}
+	decls := map[types.Object]*ast.FuncDecl{}
+	closers := map[types.Object]map[string]closer{} // function → close method → which inputs it closes
+	closedVars := func(fd *ast.FuncDecl) map[string]map[types.Object]token.Pos {
+		out := map[string]map[types.Object]token.Pos{}
+		ast.Inspect(fd.Body, func(n ast.Node) bool {
+			c, ok := n.(*ast.CallExpr)
+			if !ok {
+				return true
+			}
+			sel, ok := c.Fun.(*ast.SelectorExpr)
+			if !ok || !closeMethods[sel.Sel.Name] {
+				return true
+			}
+			if id, ok := sel.X.(*ast.Ident); ok {
+				if o := p.Info.Uses[id]; o != nil {
+					if out[sel.Sel.Name] == nil {
+						out[sel.Sel.Name] = map[types.Object]token.Pos{}
+					}
+					out[sel.Sel.Name][o] = c.Pos()
+				}
+			}
+			return true
+		})
+		return out
+	}
+	for _, f := range p.Files {
+		for _, d := range f.Decls {
+			fd, ok := d.(*ast.FuncDecl)
+			if !ok || fd.Body == nil {
+				continue
+			}
+			fo := p.Info.Defs[fd.Name]
+			decls[fo] = fd
+			cv := closedVars(fd)
+			for m, vars := range cv {
+				cl := closer{params: map[int]bool{}}
+				if fd.Recv != nil && len(fd.Recv.List[0].Names) == 1 {
+					if _, ok := vars[p.Info.Defs[fd.Recv.List[0].Names[0]]]; ok {
+						cl.recv = true
+					}
+				}
+				k := 0
+				for _, fld := range fd.Type.Params.List {
+					for _, nm := range fld.Names {
+						if _, ok := vars[p.Info.Defs[nm]]; ok {
+							cl.params[k] = true
+						}
+						k++
+					}
+				}
+				if cl.recv || len(cl.params) > 0 {
+					if closers[fo] == nil {
+						closers[fo] = map[string]closer{}
+					}
+					closers[fo][m] = cl
+				}
+			}
+		}
+	}
+	var out []awfact
+	for _, f := range p.Files {
+		for _, d := range f.Decls {
+			fd, ok := d.(*ast.FuncDecl)
+			if !ok || fd.Body == nil {
+				continue
+			}
+			cv := closedVars(fd)
+			if len(cv) == 0 {
+				continue
+			}
+			ast.Inspect(fd.Body, func(n ast.Node) bool {
+				c, ok := n.(*ast.CallExpr)
+				if !ok {
+					return true
+				}
+				var callee types.Object
+				var recvExpr ast.Expr
+				switch fn := c.Fun.(type) {
+				case *ast.Ident:
+					callee = p.Info.Uses[fn]
+				case *ast.SelectorExpr:
+					callee = p.Info.Uses[fn.Sel]
+					recvExpr = fn.X
+				}
+				cls, ok := closers[callee]
+				if !ok {
+					return true
+				}
+				for m, cl := range cls {
+					mine := cv[m]
+					hit := func(e ast.Expr) bool {
+						id, ok := e.(*ast.Ident)
+						if !ok {
+							return false
+						}
+						_, closedHere := mine[p.Info.Uses[id]]
+						return closedHere
+					}
+					if cl.recv && recvExpr != nil && hit(recvExpr) {
+						out = append(out, awfact{file: p.base(c.Pos()), fn: funcLabel(fd), lhs: exprText(recvExpr) + "." + m, line: p.line(c.Pos()), how: "also closed by the callee " + exprText(c.Fun)})
+					}
+					for i, a := range c.Args {
+						if cl.params[i] && hit(a) {
+							out = append(out, awfact{file: p.base(c.Pos()), fn: funcLabel(fd), lhs: exprText(a) + "." + m, line: p.line(c.Pos()), how: "also closed by the callee " + exprText(c.Fun)})
+						}
+					}
+				}
+				return true
+			})
+		}
+	}
+	return out
 }
